@@ -69,4 +69,17 @@ namespace verif_drv
         use_raw(r1);
         use_composable(r1);
     }
+
+    // a type-erased reference made from the allocator object of another type-erased reference: what the library's converting
+    // constructors and user code like any_std_allocator<T>(x.get_allocator()) do.  The constructor selected here must be the one
+    // that clones the type-erasure wrapper (reference to the allocator), not the generic one (reference to the reference).
+    void drive_any_from_any(mem::any_allocator_reference& r, const mem::any_allocator_reference& cr)
+    {
+        mem::any_allocator_reference again(r.get_allocator());
+        mem::any_allocator_reference again_c(cr.get_allocator());
+        mem::any_std_allocator<int>  a(r.get_allocator());
+        use_raw(again);
+        use_raw(again_c);
+        (void)a;
+    }
 } // namespace verif_drv
